@@ -95,6 +95,11 @@ def cases(rng, quick):
     add(lambda i: g.mcall(i.e(c({'a': 1})), 'set', i.e(c('b')), i.e(c(3))), data=[1])
     add(lambda i: g.bn('->', g.call('let', x=i.e(c(1)), y=i.e(c(2))), g.lst(i.e(g.var('x')), i.e(g.var('y')))))
     add(lambda i: g.bn('->', g.call('with', i.e(c(1)), i.e(c(2))), g.bn('+', i.e(g.var('1')), i.e(g.var('2')))))
+    # several named arguments are evaluated in the order they are written, whatever their names
+    add(lambda i: g.bn('->', g.call('let', zz=i.e(c(1)), b=i.e(c(2)), a=i.e(c(3))), g.lst(g.var('a'), g.var('b'), g.var('zz'))))
+    add(lambda i: g.call('dict', z=i.e(c(1)), a=i.e(c(2)), m=i.e(c(3))))
+    add(lambda i: g.call('dict', b=i.e(X), a=i.e(g.mcall(X, 'len'))))
+    add(lambda i: g.bn('->', g.call('let', i.e(c(0)), y=i.e(c(2)), x=i.e(c(1))), g.lst(g.var('1'), g.var('x'), g.var('y'))))
     # per-element lambdas: once per element consumed, in consumption order; lazy ones deferred past later siblings
     datas = [[3, 1, 2], [], [1], [2, 2, 1, 0]]
     for d in datas:
